@@ -101,20 +101,20 @@ def link_grammar(ctx, mutate=None, tag=""):
                    detail="missing %s; extra %s" % (missing, extra), props=PROPS_ALL, model={"missing": missing, "extra": extra}, replay=parser_replay if extra else action_replay))
     prec_ok = {k: tuple(v) for k, v in T["precedence"].items()} == G.PRECEDENCE
     out.append(Obl(pre + "table/precedence(not>and>or,left)", FN, "table", "precedence table: KW_OR < KW_AND < KW_NOT, all left-associative",
-                   status=DISCHARGED if prec_ok else REFUTED, backend="table-compare", detail=str(T["precedence"]), props=("C02",), model=T["precedence"], replay=action_replay))
+                   status=DISCHARGED if prec_ok else REFUTED, backend="table-compare", detail=str(T["precedence"]), props=PROPS_ALL, model=T["precedence"], replay=action_replay))
     # per-production precedence as sly resolved it (a %prec or a renamed token would show here)
     want_prec = {("predicate", ("KW_NOT", "predicate")): ("left", 3), ("predicate", ("predicate", "KW_OR", "predicate")): ("left", 1),
                  ("predicate", ("predicate", "KW_AND", "predicate")): ("left", 2)}
     bad_prec = [k for k, p in real.items() if tuple(p["prec"]) != want_prec.get(k, ("right", 0))]
     out.append(Obl(pre + "table/production-precedences", FN, "table", "each production carries the precedence of its operator token and no other",
-                   status=DISCHARGED if not bad_prec else REFUTED, backend="table-compare", detail=str(bad_prec), props=("C02",), model={"productions": [str(b) for b in bad_prec]}, replay=action_replay))
+                   status=DISCHARGED if not bad_prec else REFUTED, backend="table-compare", detail=str(bad_prec), props=PROPS_ALL, model={"productions": [str(b) for b in bad_prec]}, replay=action_replay))
     out.append(Obl(pre + "table/start==header", FN, "table", "start symbol", status=DISCHARGED if T["start"] == G.START else REFUTED,
-                   backend="table-compare", detail=T["start"], props=("C06", "C07")))
+                   backend="table-compare", detail=T["start"], props=PROPS_ALL))
     out.append(Obl(pre + "table/no-conflicts", FN, "table", "the LALR(1) table has no shift/reduce or reduce/reduce conflict left to a default (premise of the assumed sly contract)",
                    status=DISCHARGED if not T["sr_conflicts"] and not T["rr_conflicts"] else REFUTED, backend="table-compare",
-                   detail="sr=%s rr=%s" % (T["sr_conflicts"], T["rr_conflicts"]), props=("C02", "C06", "C07", "C11"), model={"sr": T["sr_conflicts"], "rr": T["rr_conflicts"]}, replay=action_replay))
+                   detail="sr=%s rr=%s" % (T["sr_conflicts"], T["rr_conflicts"]), props=PROPS_ALL, model={"sr": T["sr_conflicts"], "rr": T["rr_conflicts"]}, replay=action_replay))
     out.append(Obl(pre + "table/no-error-productions", FN, "table", "no production mentions sly's `error` token (no grammar-level recovery)",
-                   status=DISCHARGED if not T["has_error_productions"] else REFUTED, backend="table-compare", detail="", props=("C06",), replay=parser_replay))
+                   status=DISCHARGED if not T["has_error_productions"] else REFUTED, backend="table-compare", detail="", props=PROPS_ALL, replay=parser_replay))
     # ---- the LR tables sly generated vs an INDEPENDENT LALR(1) construction from G_ref (translation validation of the
     #      table generator; the LR driver loop itself stays an assumed contract)
     out.extend(lr_table_obligations(T, G, pre, rn))
@@ -124,11 +124,11 @@ def link_grammar(ctx, mutate=None, tag=""):
         out.append(Obl(pre + "ExperimentParser.error/rejects(raises)", FN + ".error", "post",
                        "a syntax error rejects the text: ExperimentParser.error raises for every token and for end of input (sly's default handler only prints, after which panic-mode recovery resumes parsing)",
                        status=REFUTED, backend="table-compare", detail="ExperimentParser.error resolves to %s, which returns normally" % T["error_owner"],
-                       props=("C06",), model={"resolves_to": T["error_owner"]}, replay=parser_replay))
+                       props=PROPS_ALL, model={"resolves_to": T["error_owner"]}, replay=parser_replay))
     else:
         c = ctx.reg.contracts.get(GRAM + ".ExperimentParser.error")
         if c is None:
-            out.append(Obl(pre + "ExperimentParser.error/under-contract", FN + ".error", "safety", "error() has a contract", status=UNDECIDED, backend="pyvc", detail="no contract", props=("C06",)))
+            out.append(Obl(pre + "ExperimentParser.error/under-contract", FN + ".error", "safety", "error() has a contract", status=UNDECIDED, backend="pyvc", detail="no contract", props=PROPS_ALL))
         else:
             out += c.verify(mutate=mutate, tag=tag)
     # ---- actions
@@ -149,9 +149,11 @@ def link_grammar(ctx, mutate=None, tag=""):
             fn = cands[0] if cands else fn
         if key not in G.G_REF:
             continue
-        props = ("C05", "C02") if key[0] in ("literal", "weight", "return_statement", "term", "tuple", "op_term") else ("C02", "C07")
+        props = ("C02", "C05", "C07", "C13")        # every action builds a node some routing / literal / compile obligation reads
         if key[0] in ("weight", "return_statement", "literal") or "weight" in key[0] or any("weight" in x.lower() for x in key[1]):
-            props = props + ("C03", "C10")        # the declared weights (value and order) reach the AST unchanged
+            props = props + ("C03", "C10", "C16")        # the declared weights (value and order) reach the AST unchanged
+        if any(w in key[0].lower() for w in ("salt", "split", "field", "header")):
+            props = props + ("C09", "C12", "C15", "C01", "C14")      # id, salt and splitting fields: the hash key and the signature
         if fn is None:
             out.append(Obl(oid, FN + "." + key[0], "post", "action found in source", status=UNDECIDED, backend="extract", detail="no FunctionDef at line %s" % p["lineno"], props=props))
             continue
@@ -188,7 +190,7 @@ def accessor_obligations(T, pre):
     out = []
     probes = {p["number"]: p for p in T.get("accessor_probes", [])}
     if not probes:
-        return [Obl(pre + "accessors/probed", FN, "table", "accessor probes available", status=UNDECIDED, backend="native", detail="missing", props=("C02", "C05", "C07"))]
+        return [Obl(pre + "accessors/probed", FN, "table", "accessor probes available", status=UNDECIDED, backend="native", detail="missing", props=PROPS_ALL)]
     bad = []
     for p in T["productions"]:
         pr = probes.get(p["number"])
@@ -213,7 +215,7 @@ def accessor_obligations(T, pre):
             bad.append("%s -> %s: unknown symbol name %s" % (p["name"], " ".join(rhs), pr["unknown_name"]))
     out.append(Obl(pre + "accessors/p.NAME,p[i],len(p)-select-the-documented-symbol", FN, "table",
                    "on every live production: each name selects the value of the documented right-hand-side symbol, p[i] the i-th, p.len == len(p) == |rhs|, an unknown name raises AttributeError",
-                   status=DISCHARGED if not bad else REFUTED, backend="table-probe", detail="; ".join(bad)[:1500], props=("C02", "C05", "C07", "C03"),
+                   status=DISCHARGED if not bad else REFUTED, backend="table-probe", detail="; ".join(bad)[:1500], props=PROPS_ALL,
                    model={"mismatches": bad[:5]} if bad else None, replay=action_replay))
     return out
 
@@ -223,7 +225,7 @@ def lr_table_obligations(T, G, pre, rn):
     out = []
     lr = T.get("lr")
     if lr is None:
-        return [Obl(pre + "lr/tables-dumped", FN, "table", "LR tables available", status=UNDECIDED, backend="native", detail="missing", props=("C02", "C06", "C07", "C11"))]
+        return [Obl(pre + "lr/tables-dumped", FN, "table", "LR tables available", status=UNDECIDED, backend="native", detail="missing", props=PROPS_ALL)]
     ref = lalr_ref.build()
     prodkey = {p["number"]: (rn(p["name"]), tuple(rn(x) for x in p["rhs"])) for p in T["productions"]}
     refkey = {i: pr for i, pr in enumerate(ref["prods"])}
@@ -292,7 +294,7 @@ def lr_table_obligations(T, G, pre, rn):
     out.append(Obl(pre + "lr/tables==independent-LALR(1)-construction-from-G_ref", FN, "table",
                    "the ACTION/GOTO tables sly generated are bisimilar to LALR(1) tables constructed independently from the documented grammar and precedence (so the accepted language and the tree selection are G_ref's, given the LR driver)",
                    status=DISCHARGED if ok else REFUTED, backend="lalr-compare", detail=mismatch or "%d states paired, %d table entries compared" % (len(pair), n_checked),
-                   props=("C02", "C06", "C07", "C11"), model={"mismatch": mismatch, "reference_conflicts": ref["conflicts"][:3]}, replay=parser_replay))
+                   props=PROPS_ALL, model={"mismatch": mismatch, "reference_conflicts": ref["conflicts"][:3]}, replay=parser_replay))
     # defaulted states: the driver takes their action WITHOUT reading the lookahead; only a state whose every lookahead
     # reduces by the same production may be defaulted (never the accept state: that would accept a prefix of the text)
     bad = []
@@ -302,7 +304,7 @@ def lr_table_obligations(T, G, pre, rn):
             bad.append("state %s defaulted to action %s with row %s" % (s, a, sorted(row)))
     out.append(Obl(pre + "lr/defaulted-states-are-pure-reduce-states", FN, "table",
                    "every state whose action the LR driver takes without a lookahead has that single REDUCE action on all its lookaheads (the accept state is never defaulted)",
-                   status=DISCHARGED if not bad else REFUTED, backend="table-compare", detail="; ".join(bad) or "%d defaulted states" % len(lr["defaulted"]), props=("C06", "C02", "C11"),
+                   status=DISCHARGED if not bad else REFUTED, backend="table-compare", detail="; ".join(bad) or "%d defaulted states" % len(lr["defaulted"]), props=PROPS_ALL,
                    model={"bad": bad}, replay=parser_replay))
     return out
 
